@@ -70,6 +70,22 @@ Theorem C07_fill_window_huge_slice_old_refuted :
 Proof. exact fill_window_huge_slice_old_refuted. Qed.
 Print Assumptions C07_fill_window_huge_slice_old_refuted.
 
+(* The debug assertion of process_pending_bytes in its original strict form fails in a reachable
+   state (builds with debug assertions panicked there; repaired to <=, which the model asserts and
+   process_pending_spec proves). *)
+Theorem C07_process_pending_strict_assert_refuted :
+  match enc_new false false 4096 0 32 with
+  | Ok (p, _) =>
+      let d := mkLzd 0 1 true 2 1 in
+      match process_pending p d [] with
+      | Ok (d1, _) => pending_assert_old (pending_size d) (pending_size d1) = false
+      | _ => False
+      end
+  | _ => False
+  end.
+Proof. exact process_pending_strict_assert_refuted. Qed.
+Print Assumptions C07_process_pending_strict_assert_refuted.
+
 (* The .lzma clause of C18 (declared size): what every call returns is the function [l1_results]
    of the slice lengths and the declared size; a successful finish means declared = accepted =
    coded. *)
